@@ -41,12 +41,14 @@ end Witverif.Text.CIdent
 
 namespace Witverif.Text.CIdentSpec
 
-/-- reserved words an identifier of the generated C must avoid (lower-case ones; the `_Xxx` keywords
-cannot be produced from a WIT name) -/
+/-- identifiers the generated C must avoid: the lower-case C17 keywords (the `_Xxx` keywords cannot be
+produced from a WIT name), the GNU keywords `asm`/`typeof` of clang's default gnu17, and the macros
+of `<stdbool.h>`, which every generated header includes.  (Typedef names of `<stdint.h>`/`<stddef.h>`
+are *not* in this list — see the known finding `c-typedef-name-as-parameter`.) -/
 def cKeywords : List (List Char) :=
   ["auto", "break", "case", "char", "const", "continue", "default", "do", "double", "else", "enum",
    "extern", "float", "for", "goto", "if", "inline", "int", "long", "register", "restrict", "return",
    "short", "signed", "sizeof", "static", "struct", "switch", "typedef", "union", "unsigned", "void",
-   "volatile", "while", "asm", "typeof"].map String.toList
+   "volatile", "while", "asm", "typeof", "bool", "true", "false"].map String.toList
 
 end Witverif.Text.CIdentSpec
